@@ -360,7 +360,9 @@ def register_docs(reg):
             r = ex.w.fun(fn, "str", out)(ex.o.s(args[0]))
             return {"bool": ex.o.bool_, "int": ex.o.int_, "str": ex.o.str_}.get(out, ex.o.float_)(r)
     from pyvc.smt import FP64
-    for name, out in (("int_ok", "bool"), ("int_parse", "int"), ("float_ok", "bool"), ("float_parse", FP64), ("xml_ok", "bool"), ("xml_root_tag", "str")):
+    for name, out in (("int_ok", "bool"), ("int_parse", "int"), ("float_ok", "bool"), ("float_parse", FP64), ("xml_ok", "bool"), ("xml_root_tag", "str"),
+                      ("ipaddr_ok", "bool"), ("ipaddr_text", "str"), ("ipnet_ok", "bool"), ("ipnet_text", "str"), ("ipnet_prefixlen", "int"),
+                      ("url_ok", "bool"), ("url_scheme", "str"), ("dns_ok", "bool"), ("dns_name", "str")):
         strpred(name, name, out)
 
     @reg.specfun("isnan")
